@@ -14,7 +14,7 @@ func init() {
 	register(&propDef{
 		ID: "C14",
 		Meta: propMeta{
-			Explanation: "Decides the structural part of request isolation: (R14a) no package-level variable of the module is written from code reachable from a concurrent entry point (every route handler, every HTTP middleware closure, the worker's RPC handler and health loop, the server's health loop, the worker-token monitor) unless the write holds a mutex, runs inside a sync.Once.Do closure, or is in the reasoned table (initialisation before the goroutine that shares the variable exists) — so no signer or helper can keep request state in a package variable; (R14b) lock discipline for the frozen table of shared objects: every access to Cache.keys, signinit.ts, WorkerToken.procs, Closed.err, the health counters and the PKCS#11 provider map holds the mutex that guards it (constructors of a not-yet-shared object excepted); (R14c) the per-request objects are fresh allocations: audit.New, signinit.Init's SignOpts and Signer.FlagsFromQuery return newly allocated values that do not alias package state; (R14d) shutdown waits: Daemon.Close runs httpServer.Shutdown before Server.Close inside the errgroup whose Wait it returns, and Server.Close signals the health loop before closing tokens.",
+			Explanation: "Decides the structural part of request isolation: (R14a) no package-level variable of the module is written from code reachable from a concurrent entry point (every route handler, every HTTP middleware closure, the worker's RPC handler and health loop, the server's health loop, the worker-token monitor) unless the write holds a mutex, runs inside a sync.Once.Do closure, or is in the reasoned table (initialisation before the goroutine that shares the variable exists) — so no signer or helper can keep request state in a package variable; (R14b) lock discipline for the frozen table of shared objects: every access to Cache.keys, signinit.ts, WorkerToken.procs, Closed.err, the health counters and the PKCS#11 provider map holds the mutex that guards it (constructors of a not-yet-shared object excepted); (R14c) the per-request objects are fresh allocations: audit.New, signinit.Init's SignOpts and Signer.FlagsFromQuery return newly allocated values that do not alias package state; (R14d) shutdown waits: Daemon.Close runs httpServer.Shutdown before Server.Close inside the errgroup whose Wait it returns, and Server.Close signals the health loop before closing tokens; (R14e) an object handed back to a sync.Pool is not used again by the function that returned it (zero instances today; positive control in testdata/ctl/pool); (R14f) for each of the module's go statements, the spawning function does not use a mutable object it handed to the goroutine (captured variable or argument of pointer, map, slice or interface type without its own synchronisation) before a join (receive on a channel the goroutine signals, WaitGroup/errgroup Wait); R14b distinguishes shared (RLock) from exclusive holds, a write needs the exclusive one.",
 			NotDecided:  "race freedom of heap objects in general (no points-to / may-happen-in-parallel analysis is available: x/tools v0.29.0 has no go/pointer), deadlock freedom, response mix-ups inside net/http. The atomic/plain mix in internal/closeonce is only noted: its sole lock-free reader cannot overlap the writer (WorkerToken.Close waits for spawners first), so arming it would be a false alarm.",
 			Assumptions: []string{"prometheus collectors, zerolog and rate.Limiter are internally synchronised", "sync.Once.Do runs its function once with a happens-before edge to every return of Do"},
 		},
@@ -95,11 +95,18 @@ var c14GuardTable = []struct{ obj, lock, why string }{
 	{"g:token/p11token.providerMap", "g:token/p11token.providerMutex", "PKCS#11 provider handles"},
 }
 
+// c14GoExceptions: go statements whose spawner legitimately keeps using a handed-over object.
+var c14GoExceptions = map[string]string{
+	"lib/compresshttp.CompressRequest go#1": "readBlocker synchronises through sync/atomic on its closed flag; the spawner only stores the pointer so that closing the request body also blocks further reads by the compressor",
+}
+
 func runC14(c *Ctx) {
 	p := c.P
 	c.Rule("R14a", "no unsynchronised write of a package-level variable in code reachable from a concurrent entry point", 5)
 	c.Rule("R14b", "every access to a guarded shared object holds its mutex", 15)
 	c.Rule("R14c", "per-request objects are fresh allocations", 3)
+	c.Rule("R14e", "an object handed back to a sync.Pool is not used again by the function that returned it", 0)
+	c.Rule("R14f", "a function that starts a goroutine does not use the mutable objects it handed to it again before joining it (channel receive or Wait)", 15)
 	c.Rule("R14d", "shutdown waits for handlers; the health loop is signalled before tokens close", 3)
 
 	entries := p.concurrentEntries(c)
@@ -140,7 +147,7 @@ func runC14(c *Ctx) {
 				held = p.heldLocks(fn)
 			}
 			switch {
-			case len(held[a.Instr]) > 0:
+			case anyExclusive(held[a.Instr]):
 				c.Pass("R14a", key, p.Pos(a.Instr.Pos()), fmt.Sprintf("mutex held: %v", sortedKeys(held[a.Instr])))
 			case once[fn]:
 				c.Pass("R14a", key, p.Pos(a.Instr.Pos()), "inside a sync.Once.Do closure")
@@ -188,10 +195,10 @@ func runC14(c *Ctx) {
 				c.PassTrivial("R14b", key, p.Pos(a.Instr.Pos()), "exception: "+why)
 				continue
 			}
-			if held[a.Instr][objs[a.Key]] {
+			if lockOK(held[a.Instr], objs[a.Key], a.Write) {
 				c.Pass("R14b", key, p.Pos(a.Instr.Pos()), objs[a.Key]+" held")
 			} else {
-				c.Fail("R14b", key, p.Pos(a.Instr.Pos()), fmt.Sprintf("%s is accessed without holding %s", a.Key, objs[a.Key]))
+				c.Fail("R14b", key, p.Pos(a.Instr.Pos()), fmt.Sprintf("%s is %s without holding %s%s", a.Key, map[bool]string{true: "written", false: "read"}[a.Write], objs[a.Key], map[bool]string{true: " exclusively (a shared RLock does not license a write)", false: ""}[a.Write && held[a.Instr][objs[a.Key]+"#r"]]))
 			}
 		}
 	}
@@ -200,6 +207,43 @@ func runC14(c *Ctx) {
 			c.Undecided("R14b", g.obj, "-", "guarded object of the frozen table not found (renamed or removed): update the table")
 		}
 	}
+
+	// ---- R14e / R14f
+	for _, f := range poolUseAfterPut(p) {
+		c.Check(f.OK, "R14e", f.Key, f.Pos, "no use after Put", "the object is still used after it was put back into the pool ("+f.Detail+"): the pool can hand it to a concurrent request in between, so two requests write through one object")
+	}
+	c.runControl("R14e pool use-after-Put", "pool.Bad", poolUseAfterPut)
+	sites, shares := goroutineShares(p)
+	badGo := map[*ssa.Go][]goShare{}
+	for _, s := range shares {
+		badGo[s.Go] = append(badGo[s.Go], s)
+	}
+	nGo := map[*ssa.Function]int{}
+	for _, fn := range p.Funcs {
+		for _, b := range fn.Blocks {
+			for _, in := range b.Instrs {
+				g, ok := in.(*ssa.Go)
+				if !ok {
+					continue
+				}
+				nGo[fn]++
+				key := fmt.Sprintf("%s go#%d", p.FName(fn), nGo[fn])
+				c.Analysed(p.FName(fn))
+				if ss := badGo[g]; len(ss) > 0 {
+					s := ss[0]
+					if why, ok := c14GoExceptions[key]; ok {
+						c.PassTrivial("R14f", key, p.Pos(g.Pos()), "exception: "+why)
+						continue
+					}
+					c.Fail("R14f", key, p.Pos(g.Pos()), fmt.Sprintf("%s is handed to the goroutine and used again by the spawner at %s before any join: the two run concurrently on the same object (%d such uses)", s.What, p.Pos(s.Use.Pos()), len(ss)))
+				} else {
+					c.Pass("R14f", key, p.Pos(g.Pos()), "spawner does not touch the handed-over mutable objects before joining")
+				}
+			}
+		}
+	}
+	_ = sites
+	c.runControl("R14f goroutine hand-over", "goshare.Bad", goShareFindings)
 
 	// ---- R14c
 	for _, spec := range []string{"lib/audit.New", "signers.(*Signer).FlagsFromQuery", "internal/signinit.Init"} {
